@@ -139,8 +139,23 @@ impl CustomSection for Probe {
     }
 }
 
+/// message and location of the most recent panic (caught or not)
+pub static LAST_PANIC: Mutex<String> = Mutex::new(String::new());
+
 pub fn silence_panics() {
-    std::panic::set_hook(Box::new(|_| {}));
+    std::panic::set_hook(Box::new(|info| {
+        let msg = if let Some(s) = info.payload().downcast_ref::<&str>() {
+            s.to_string()
+        } else if let Some(s) = info.payload().downcast_ref::<String>() {
+            s.clone()
+        } else {
+            "panic".to_string()
+        };
+        let loc = info.location().map(|l| format!("{}:{}", l.file(), l.line())).unwrap_or_default();
+        if let Ok(mut g) = LAST_PANIC.lock() {
+            *g = format!("{} at {}", short(&msg), loc);
+        }
+    }));
 }
 
 pub fn panic_msg(e: Box<dyn std::any::Any + Send>) -> String {
